@@ -337,6 +337,10 @@ func genC26e2e(g *Gen, tier string, w *bufio.Writer) {
 	fmt.Fprintln(w, e2eLine(fixed, "SELECT * FROM @T x WHERE x.c0 NOT IN (1, 2, 3)"))
 	fmt.Fprintln(w, e2eLine(fixed, "SELECT x.c1 FROM @T x WHERE x.c0 IN (1, 5) AND len(x.c1) = 1"))
 	fmt.Fprintln(w, e2eLine(fixed, "SELECT * FROM @T x"))
+	// predicates that mention variables of an outer record: the plugin receives the outer variable contexts
+	fmt.Fprintln(w, e2eLine(fixed, "SELECT a.c0, (SELECT x.c1 FROM @T x WHERE x.c0 = a.c0) AS s FROM t.csv a"))
+	fmt.Fprintln(w, e2eLine(fixed, "SELECT * FROM t.csv a LOOKUP JOIN @T x ON a.c0 = x.c0"))
+	fmt.Fprintln(w, e2eLine(fixed, "SELECT a.c0 FROM t.csv a WHERE a.c0 IN (SELECT x.c0 FROM @T x WHERE x.c1 = a.c1)"))
 	for i := 0; i < n; i++ {
 		t := genQTable(g, o)
 		p := e2ePred(g, t.cols, 2)
@@ -344,6 +348,16 @@ func genC26e2e(g *Gen, tier string, w *bufio.Writer) {
 		if g.Chance(1, 3) {
 			sel = "x." + t.cols[g.Intn(len(t.cols))].name
 		}
-		fmt.Fprintln(w, e2eLine(t, "SELECT "+sel+" FROM @T x WHERE "+p))
+		k := "c" + strconv.Itoa(g.Intn(len(t.cols)))
+		switch g.Intn(6) {
+		case 0:
+			fmt.Fprintln(w, e2eLine(t, "SELECT a.c0, (SELECT x.c0 FROM @T x WHERE x."+k+" = a."+k+" AND "+p+") AS s FROM t.csv a"))
+		case 1:
+			fmt.Fprintln(w, e2eLine(t, "SELECT * FROM t.csv a LOOKUP JOIN @T x ON a."+k+" = x."+k))
+		case 2:
+			fmt.Fprintln(w, e2eLine(t, "SELECT * FROM t.csv a JOIN @T x ON a."+k+" = x."+k+" WHERE "+p))
+		default:
+			fmt.Fprintln(w, e2eLine(t, "SELECT "+sel+" FROM @T x WHERE "+p))
+		}
 	}
 }
